@@ -953,7 +953,8 @@ def build_tasks(ctx):
             for cap in (1, 2, 3, 4):
                 small = len(g["nodes"]) <= 3 and cap <= 2 and sum(g["savers"].values()) <= 1
                 for p in ((1, 2) if not big else (1, 2, 3)):
-                    ex = (60000 if big else 8000) if (small and p <= 2 and (big or p == 1)) else None
+                    ex = (60000 if big else 6000) if (small and p <= 2 and (big or (p == 1 and (lazy or cap == 1)))) \
+                        else None
                     if big or esc or (p == 1 and cap <= 2) or (p == 2 and cap == 3):
                         add("adversarial", g, lazy, cap, p, explore=ex)
                     if big or esc or (cap + p) % 2 == 0:
@@ -964,7 +965,7 @@ def build_tasks(ctx):
                                   (chain(2), False, 2, 1, 4, 1), (chain(3), True, 1, 1, 2, 1),
                                   (chain(2, savers={0: 1}), True, 1, 1, 3, 1), (fanout(2), True, 1, 1, 2, 1),
                                   (fanout(2), False, 1, 1, 2, 1), (diamond(), True, 1, 1, 2, 1)]:
-        add("dfs", g, lazy, cap, p, N=N, bound_pre=(b + 1 if big else b), max_runs=(20000 if big else 900 if esc else 300))
+        add("dfs", g, lazy, cap, p, N=N, bound_pre=(b + 1 if big else b), max_runs=(20000 if big else 600 if esc else 200))
     # (3) through a real Context.get_iter with DataDirectory savers
     for g, store in [(chain(3), [1]), (chain(2), []), (fanout(2, tail=True), [2]), (diamond(), [1])]:
         for lazy in (False, True):
